@@ -245,6 +245,12 @@ func makeAccumulatorFunc(expr parser.ItemType) (newAccumulatorFunc, error) {
 				AddFunc: func(v float64) {
 					hasValue = true
 					count++
+					if count == 1 {
+						// Same as Prometheus: the first sample only seeds the mean, so a
+						// group that consists of a single NaN or Inf has a deviation of 0.
+						mean = v
+						return
+					}
 					delta := v - (mean + cMean)
 					mean, cMean = function.KahanSumInc(delta/count, mean, cMean)
 					aux, cAux = function.KahanSumInc(delta*(v-(mean+cMean)), aux, cAux)
@@ -271,6 +277,12 @@ func makeAccumulatorFunc(expr parser.ItemType) (newAccumulatorFunc, error) {
 				AddFunc: func(v float64) {
 					hasValue = true
 					count++
+					if count == 1 {
+						// Same as Prometheus: the first sample only seeds the mean, so a
+						// group that consists of a single NaN or Inf has a deviation of 0.
+						mean = v
+						return
+					}
 					delta := v - (mean + cMean)
 					mean, cMean = function.KahanSumInc(delta/count, mean, cMean)
 					aux, cAux = function.KahanSumInc(delta*(v-(mean+cMean)), aux, cAux)
